@@ -823,7 +823,16 @@ func (f *File) Readdirnames(n int) ([]string, error) {
 	for k := range f.ino.children {
 		names = append(names, k)
 	}
-	sort.Strings(names)
+	// canonical order: creation order (a function of the schedule), not the
+	// names (cache file names are content hashes, which depend on absolute
+	// paths of the sources)
+	ch := f.ino.children
+	sort.Slice(names, func(a, b int) bool {
+		if ch[names[a]].ino != ch[names[b]].ino {
+			return ch[names[a]].ino < ch[names[b]].ino
+		}
+		return names[a] < names[b]
+	})
 	for i := len(names) - 1; i > 0; i-- {
 		j := verifsim.Choose(i + 1)
 		// Choose returns 0 for the canonical order; map 0 to "keep".
@@ -845,9 +854,11 @@ type Entry struct {
 	Size  int
 	Dir   bool
 	MTime time.Time
+	Ino   int
 }
 
-// Walk lists all files (not directories) below the root, sorted by path.
+// Walk lists all files (not directories) below the root in creation order
+// (which is a function of the schedule; names are content hashes).
 func (f *FS) Walk() []Entry {
 	var out []Entry
 	var rec func(p string, n *inode)
@@ -863,11 +874,12 @@ func (f *FS) Walk() []Entry {
 			if c.dir {
 				rec(cp, c)
 			} else {
-				out = append(out, Entry{Path: cp, Size: len(c.data), MTime: c.mtime})
+				out = append(out, Entry{Path: cp, Size: len(c.data), MTime: c.mtime, Ino: c.ino})
 			}
 		}
 	}
 	rec(f.root, f.top)
+	sort.SliceStable(out, func(a, b int) bool { return out[a].Ino < out[b].Ino })
 	return out
 }
 
